@@ -89,6 +89,7 @@ type Sim struct {
 	taken    map[int64]bool
 	pointN   map[string]int
 	Holds    int // holds that actually took effect
+	RealScale int // > 0: real-time mode outside a synctest bubble, all durations divided by this
 	Free     bool // uncontrolled mode: yield points do not park, the Go scheduler decides (race detector runs)
 	// critical sections of repo code that contain yield points (a real mutex
 	// held across yields): a task parked at the Enter point is not eligible
@@ -179,6 +180,9 @@ func (s *Sim) uniqueInstant(d time.Duration) time.Time {
 	if d < 0 {
 		d = 0
 	}
+	if s.RealScale > 0 { // real-time race mode: no bubble, compressed durations, no instant discipline
+		return time.Now().Add(d / time.Duration(s.RealScale))
+	}
 	now := time.Now()
 	t := now.Add(d).Truncate(time.Microsecond).Add(1500 * time.Nanosecond)
 	s.mu.Lock()
@@ -209,7 +213,20 @@ func (s *Sim) tick() {
 }
 
 // Now is virtual time since the start of the run.
-func (s *Sim) Now() time.Duration { return time.Since(s.start) }
+func (s *Sim) Now() time.Duration {
+	if s.RealScale > 0 {
+		return time.Since(s.start) * time.Duration(s.RealScale)
+	}
+	return time.Since(s.start)
+}
+
+// D scales a duration handed to the proxy (timeouts, intervals) in real-time mode.
+func (s *Sim) D(d time.Duration) time.Duration {
+	if s.RealScale > 0 {
+		return d / time.Duration(s.RealScale)
+	}
+	return d
+}
 
 func (s *Sim) notify() {
 	select {
